@@ -20,7 +20,8 @@ use sozu_lib::pool::Pool;
 use sozu_lib::protocol::pipe::{Pipe, WebSocketContext};
 use sozu_lib::socket::{SocketHandler, SocketResult, TransportProtocol};
 use sozu_command_lib::logging::CachedTags;
-use sozu_lib::{ListenerHandler, Protocol, Readiness, SessionMetrics, SessionResult};
+use sozu_lib::protocol::SessionState;
+use sozu_lib::{L7Proxy, ListenerHandler, Protocol, ProxySession, Readiness, SessionMetrics, SessionResult};
 use verif_harness::*;
 
 #[derive(Default)]
@@ -31,6 +32,12 @@ struct Script {
     windows: Vec<usize>,
     writes: VecDeque<(usize, SocketResult)>,
     written: Vec<u8>,
+    /// session mode: the fake answers like a kernel socket — a read takes what is queued
+    /// (`Continue` when the window was filled, else `Closed` behind a FIN, else `WouldBlock`),
+    /// a write takes what fits in `room`
+    kernel_mode: bool,
+    fin: bool,
+    room: usize,
 }
 
 struct FakeSock {
@@ -42,6 +49,20 @@ impl SocketHandler for FakeSock {
     fn socket_read(&mut self, buf: &mut [u8]) -> (usize, SocketResult) {
         let mut s = self.script.borrow_mut();
         s.windows.push(buf.len());
+        if s.kernel_mode {
+            let n = s.queue.len().min(buf.len());
+            for slot in buf.iter_mut().take(n) {
+                *slot = s.queue.pop_front().unwrap();
+            }
+            let res = if n == buf.len() {
+                SocketResult::Continue
+            } else if s.fin {
+                SocketResult::Closed
+            } else {
+                SocketResult::WouldBlock
+            };
+            return (n, res);
+        }
         match s.next_res.take() {
             Some(res) => {
                 let n = s.queue.len().min(buf.len());
@@ -55,6 +76,12 @@ impl SocketHandler for FakeSock {
     }
     fn socket_write(&mut self, buf: &[u8]) -> (usize, SocketResult) {
         let mut s = self.script.borrow_mut();
+        if s.kernel_mode {
+            let n = s.room.min(buf.len());
+            s.written.extend_from_slice(&buf[..n]);
+            s.room -= n;
+            return (n, if n == buf.len() { SocketResult::Continue } else { SocketResult::WouldBlock });
+        }
         match s.writes.pop_front() {
             Some((n, res)) => {
                 let n = n.min(buf.len());
@@ -78,6 +105,65 @@ impl SocketHandler for FakeSock {
     }
     fn read_error(&self) {}
     fn write_error(&self) {}
+}
+
+
+/// `Pipe::ready` takes the session and the proxy only to hand them on (both unused in
+/// the Pipe): trait objects whose methods are never called.
+struct NoSession;
+impl ProxySession for NoSession {
+    fn protocol(&self) -> Protocol {
+        Protocol::TCP
+    }
+    fn ready(&mut self, _s: Rc<RefCell<dyn ProxySession>>) -> bool {
+        unreachable!()
+    }
+    fn update_readiness(&mut self, _t: Token, _e: Ready) {
+        unreachable!()
+    }
+    fn close(&mut self) {
+        unreachable!()
+    }
+    fn timeout(&mut self, _t: Token) -> bool {
+        unreachable!()
+    }
+    fn last_event(&self) -> Instant {
+        unreachable!()
+    }
+    fn print_session(&self) {}
+    fn frontend_token(&self) -> Token {
+        Token(7)
+    }
+    fn shutting_down(&mut self) -> bool {
+        unreachable!()
+    }
+}
+struct NoProxy;
+impl L7Proxy for NoProxy {
+    fn kind(&self) -> sozu_command_lib::proto::command::ListenerType {
+        unreachable!()
+    }
+    fn register_socket(&self, _s: &mut MioTcpStream, _t: Token, _i: mio::Interest) -> Result<(), std::io::Error> {
+        unreachable!()
+    }
+    fn deregister_socket(&self, _s: &mut MioTcpStream) -> Result<(), std::io::Error> {
+        unreachable!()
+    }
+    fn add_session(&self, _s: Rc<RefCell<dyn ProxySession>>) -> Token {
+        unreachable!()
+    }
+    fn remove_session(&self, _t: Token) -> bool {
+        unreachable!()
+    }
+    fn backends(&self) -> Rc<RefCell<sozu_lib::backends::BackendMap>> {
+        unreachable!()
+    }
+    fn clusters(&self) -> &std::collections::HashMap<String, sozu_command_lib::proto::command::Cluster> {
+        unreachable!()
+    }
+    fn sessions(&self) -> Rc<RefCell<sozu_lib::server::SessionManager>> {
+        unreachable!()
+    }
 }
 
 struct FakeListener {
@@ -155,7 +241,11 @@ fn res_str(r: SessionResult) -> &'static str {
 struct Rig {
     pipe: Pipe<FakeSock, FakeListener>,
     script: Rc<RefCell<Script>>,
-    peer: std::os::unix::net::UnixStream,
+    peer: Option<std::os::unix::net::UnixStream>,
+    /// everything read from the backend peer so far (filler stripped)
+    peer_log: Vec<u8>,
+    /// filler bytes the harness itself pushed into the backend socket to fill its send buffer
+    filler: usize,
     _front_peer: std::os::unix::net::UnixStream,
     back_fd: i32,
     /// bytes the backend peer delivered and sozu has not read yet (expected in the kernel)
@@ -171,6 +261,69 @@ struct Rig {
     _pool: Pool,
 }
 
+impl Rig {
+    /// read everything the backend peer's kernel queue holds (writes on an AF_UNIX stream pair
+    /// are synchronous: what sozu wrote is already there); the harness' own filler — always the
+    /// last bytes written before a drain — is stripped
+    fn collect_peer(&mut self) {
+        let Some(peer) = self.peer.as_mut() else { return };
+        let fd = peer.as_raw_fd();
+        let mut got = vec![];
+        loop {
+            let n = avail(fd);
+            if n == 0 {
+                break;
+            }
+            let mut buf = vec![0u8; n];
+            match peer.read(&mut buf) {
+                Ok(0) | Err(_) => break,
+                Ok(k) => got.extend_from_slice(&buf[..k]),
+            }
+        }
+        let keep = got.len().saturating_sub(self.filler);
+        self.filler -= got.len() - keep;
+        self.peer_log.extend_from_slice(&got[..keep]);
+    }
+    /// fill the backend socket's send buffer through sozu's own descriptor: the next write of
+    /// even one byte answers EAGAIN
+    fn fill_backend(&mut self) {
+        let big = vec![0xEEu8; 65536];
+        for chunk in [65536usize, 4096, 256, 16, 1] {
+            loop {
+                let n = unsafe { libc::send(self.back_fd, big.as_ptr() as *const libc::c_void, chunk, libc::MSG_DONTWAIT | libc::MSG_NOSIGNAL) };
+                if n <= 0 {
+                    break;
+                }
+                self.filler += n as usize;
+            }
+        }
+    }
+    fn peer_send(&mut self, bytes: &[u8], fin: bool) {
+        if self.back_fin {
+            return;
+        }
+        if let Some(peer) = self.peer.as_mut() {
+            if !bytes.is_empty() {
+                peer.write_all(bytes).expect("peer write");
+                self.back_sent.extend_from_slice(bytes);
+                self.pending_back += bytes.len();
+            }
+            if fin {
+                let _ = peer.shutdown(Shutdown::Write);
+                self.back_fin = true;
+            }
+        }
+    }
+    /// wait until sozu's backend socket holds what the peer delivered (immediate on AF_UNIX)
+    fn wait_back(&self) -> bool {
+        let t0 = Instant::now();
+        while (avail(self.back_fd) < self.pending_back || (self.back_fin && !rdhup(self.back_fd))) && t0.elapsed() < Duration::from_millis(500) {
+            std::thread::sleep(Duration::from_micros(50));
+        }
+        t0.elapsed() < Duration::from_millis(500)
+    }
+}
+
 struct P;
 
 impl Area for P {
@@ -178,7 +331,7 @@ impl Area for P {
         "pipe"
     }
     fn rule(&self) -> String {
-        "random schedules of Pipe handler calls on buffers of 16..256 bytes: client reads with scripted boundaries/SocketResults (incl. (n>0,Closed), (0,Continue), Error), scripted partial/zero/failed front writes, real backend socket reads (data, data+FIN, FIN) and full backend writes, hups and readiness events; payloads up to 4x the buffer. Non-trivial: at least one byte crossed the pipe or the session closed".into()
+        "random schedules of Pipe handler calls on buffers of 16..256 bytes: client reads with scripted boundaries/SocketResults (incl. (n>0,Closed), (0,Continue), Error), scripted partial/zero/failed front writes, real backend socket reads (data, data+FIN, FIN), backend writes that succeed in full / hit a full send buffer (WouldBlock) / a closed peer (EPIPE), hups and readiness events; 40% of the cases at session level: batches of outside events (client/backend sends, FINs, send-buffer room on either side, socket errors) each followed by one wake-up of the real Pipe::ready loop; payloads up to 4x the buffer. Non-trivial: at least one byte crossed the pipe or the session closed".into()
     }
     fn cases(&self, thorough: bool) -> u64 {
         if thorough {
@@ -195,12 +348,76 @@ impl Area for P {
             vec!["new 16384 1".into(), "fev 1 0".into(), "rd 68656c6c6f20776f726c64 W".into(), "bwr".into(), "rd - X".into(), "end".into()],
             // backend data + FIN: flushed before the close
             vec!["new 64 1".into(), "bev 1 0".into(), "brd 010203 0".into(), "brd - 1".into(), "wr 3:C".into(), "end".into()],
+            // backend send buffer full: (0, WouldBlock), then drained: the bytes go out; peer gone: EPIPE closes
+            vec!["new 64 1".into(), "rd 0102030405 W".into(), "bfill".into(), "bwr".into(), "bev 0 1".into(), "bwr".into(), "bdrain".into(), "bwr".into(), "rd 0607 W".into(), "bclose".into(), "bwr".into(), "end".into()],
+            // backend hup with pending response, then data + FIN from the backend while the client side is read-open
+            vec!["new 64 1".into(), "brd 0102 0".into(), "wr 0:C".into(), "bhup".into(), "brd 0304 1".into(), "end".into()],
+            // session level (the real Pipe::ready loop): streams both ways, back-pressure on both sockets, FINs
+            vec!["snew 16".into(), "sev cs:0102030405 cr:100".into(), "sev bs:0a0b".into(), "sev bb cs:0607".into(), "sev bo".into(), "sev bf".into(), "end".into()],
+            vec!["snew 16".into(), "sev bo cs:000102030405060708090a0b0c0d0e0f101112".into(), "sev cs:1314".into(), "sev bs:aabbccdd".into(), "sev cr:2".into(), "sev cr:100".into(), "sev cf".into(), "end".into()],
+            vec!["snew 32".into(), "sev bo cs:01".into(), "sev fe".into(), "end".into()],
+            vec!["snew 32".into(), "sev bo bs:0102 be".into(), "sev cr:10".into(), "end".into()],
             // buffer full both ways
             vec!["new 16 1".into(), "rd 000102030405060708090a0b0c0d0e0f1011 C".into(), "rd - W".into(), "bwr".into(), "rd - W".into(), "bwr".into(), "end".into()],
         ]
     }
     fn gen(&self, rng: &mut Rng, _thorough: bool) -> Vec<String> {
         let cap = *rng.pick(&[16u64, 32, 64, 256]);
+        if rng.chance(2, 5) {
+            // session level: batches of outside events, each followed by one wake-up of Pipe::ready
+            let mut ops = vec![format!("snew {cap}")];
+            let mut byte = 0u8;
+            let mut fresh = |rng: &mut Rng, k: usize| -> String {
+                let v: Vec<u8> = (0..k)
+                    .map(|_| {
+                        byte = byte.wrapping_add(1);
+                        byte ^ (rng.below(2) as u8) << 7
+                    })
+                    .collect();
+                hex(&v)
+            };
+            let (mut cfin, mut bfin, mut blocked) = (false, false, false);
+            if rng.chance(3, 4) {
+                ops.push("sev bo cr:1000".into());
+            }
+            for _ in 0..rng.range(2, 14) {
+                let mut evs: Vec<String> = vec![];
+                for _ in 0..rng.range(1, 3) {
+                    match rng.below(20) {
+                        0..=5 if !cfin => {
+                            let k = *rng.pick(&[1usize, 3, 7, 16, 40, 100]);
+                            evs.push(format!("cs:{}", fresh(rng, k)));
+                        }
+                        6..=10 if !bfin => {
+                            let k = *rng.pick(&[1usize, 5, 16, 33, 90]);
+                            evs.push(format!("bs:{}", fresh(rng, k)));
+                        }
+                        11..=13 => evs.push(format!("cr:{}", rng.pick(&[1u64, 4, 50, 1000]))),
+                        14 if !blocked => {
+                            evs.push("bb".into());
+                            blocked = true;
+                        }
+                        15 | 16 => {
+                            evs.push("bo".into());
+                            blocked = false;
+                        }
+                        17 if !bfin && rng.chance(1, 2) => {
+                            evs.push("bf".into());
+                            bfin = true;
+                        }
+                        18 if !cfin && rng.chance(1, 3) => {
+                            evs.push("cf".into());
+                            cfin = true;
+                        }
+                        19 if rng.chance(1, 6) => evs.push((if rng.chance(1, 2) { "fe" } else { "be" }).into()),
+                        _ => evs.push(format!("cr:{}", rng.pick(&[0u64, 2, 9]))),
+                    }
+                }
+                ops.push(format!("sev {}", evs.join(" ")));
+            }
+            ops.push("end".into());
+            return ops;
+        }
         let mut ops = vec![format!("new {cap} 1")];
         let n = rng.range(3, 30);
         let mut byte = 0u8;
@@ -253,6 +470,7 @@ impl Area for P {
                         .collect();
                     ops.push(format!("wr {}", sc.join(" ")));
                 }
+                9 if rng.chance(1, 3) => ops.push((*rng.pick(&["bfill", "bdrain", "bdrain", "bclose"])).into()),
                 9 => ops.push(format!("fev {} {}", rng.below(2), rng.below(2))),
                 10 => ops.push(format!("bev {} {}", rng.below(2), rng.below(2))),
                 _ => {
@@ -281,7 +499,8 @@ impl Area for P {
                 continue;
             }
             let w: Vec<&str> = op.split_whitespace().collect();
-            if let ["new", cap, _hb] = w.as_slice() {
+            if let ["new", cap, _] | ["snew", cap, ..] = w.as_slice() {
+                let session_mode = w[0] == "snew";
                 let cap: usize = cap.parse().unwrap_or(64);
                 let (Some((front, front_peer)), Some((back, peer))) = (retry(pair), retry(pair)) else {
                     inconclusive = true;
@@ -293,7 +512,7 @@ impl Area for P {
                 let mut pool = Pool::with_capacity(2, 2, cap);
                 let fb = pool.checkout().unwrap();
                 let bb = pool.checkout().unwrap();
-                let script = Rc::new(RefCell::new(Script::default()));
+                let script = Rc::new(RefCell::new(Script { kernel_mode: session_mode, ..Default::default() }));
                 let listener = Rc::new(RefCell::new(FakeListener { addr: "127.0.0.1:1".parse().unwrap() }));
                 let pipe = Pipe::new(
                     bb,
@@ -314,7 +533,7 @@ impl Area for P {
                     WebSocketContext::Tcp,
                 );
                 let line = format!("new fr={} br={} chk={}", bits(&pipe.frontend_readiness), bits(&pipe.backend_readiness), pipe.check_connections() as u8);
-                rig = Some(Rig { pipe, script, peer, _front_peer: front_peer, back_fd, pending_back: 0, back_sent: vec![], back_fin: false, dead: false, front_zero_cont: false, closed_by: String::new(), _pool: pool });
+                rig = Some(Rig { pipe, script, peer: Some(peer), peer_log: vec![], filler: 0, _front_peer: front_peer, back_fd, pending_back: 0, back_sent: vec![], back_fin: false, dead: false, front_zero_cont: false, closed_by: String::new(), _pool: pool });
                 run.out.push(line);
                 continue;
             }
@@ -324,16 +543,8 @@ impl Area for P {
             };
             if w.as_slice() == ["end"] {
                 // everything the backend peer received
-                let mut got = vec![];
-                r.peer.set_read_timeout(Some(Duration::from_millis(20))).unwrap();
-                let mut buf = [0u8; 4096];
-                loop {
-                    match r.peer.read(&mut buf) {
-                        Ok(0) => break,
-                        Ok(n) => got.extend_from_slice(&buf[..n]),
-                        Err(_) => break,
-                    }
-                }
+                r.collect_peer();
+                let got = r.peer_log.clone();
                 let sc = r.script.borrow();
                 // ---- oracles: byte-exactness of both directions ----
                 let read_front = &sc.sent[..sc.sent.len() - sc.queue.len()];
@@ -345,11 +556,22 @@ impl Area for P {
                     run.oracle.push(("pipe-client-bytes-not-a-prefix".into(), format!("client got {} of {}", hex(&sc.written), hex(read_back))));
                 }
                 let client_eof = r.closed_by.starts_with("rd ") && r.closed_by.ends_with(" X") || r.closed_by == "fhup";
+                // session level: the wake-up that carried the client's FIN closed the session although the backend was
+                // writable: every byte the client sent before its FIN counts, read or not
+                let sess_client_eof = r.closed_by.starts_with("sev ") && r.closed_by.split(' ').any(|e| e == "cf") && !r.closed_by.split(' ').any(|e| e == "fe" || e == "be") && r.filler == 0 && r.peer.is_some();
+                if r.dead && sess_client_eof && got.len() < sc.sent.len() {
+                    run.oracle.push(("pipe-close-loses-client-bytes".into(), format!("{} byte(s) the client sent before its FIN never reached the (writable) backend: Pipe::ready closes on the HUP event before reading", sc.sent.len() - got.len())));
+                }
                 if r.dead && client_eof && got.len() < read_front.len() {
                     // the client's end-of-stream (FIN seen by a read, or HUP) closed the session with client bytes read but never written to the backend
                     run.oracle.push(("pipe-close-loses-client-bytes".into(), format!("{} byte(s) read from the client were dropped at close", read_front.len() - got.len())));
                 }
-                let backend_eof = r.closed_by.starts_with("brd ") || r.closed_by == "bhup" || r.closed_by.starts_with("bwr");
+                let backend_eof = r.closed_by.starts_with("brd ") || r.closed_by == "bhup" || (r.closed_by.starts_with("bwr") && r.peer.is_some());
+                if r.dead && r.closed_by.starts_with("bwr") && r.peer.is_none() && !r.front_zero_cont && sc.written.len() < read_back.len() {
+                    // the backend peer is gone: the write of client bytes fails (EPIPE) and the session is closed at once,
+                    // although bytes already read from the backend are still waiting to be written to the client
+                    run.oracle.push(("pipe-backend-write-error-drops-response".into(), format!("{} byte(s) read from the backend were dropped: a failed write towards the (closed) backend closes the session before the buffered response is flushed", read_back.len() - sc.written.len())));
+                }
                 if r.dead && backend_eof && !r.front_zero_cont && sc.written.len() < read_back.len() {
                     // the backend's end-of-stream (or a drained request) closed the session with backend bytes read but not written to the client
                     run.oracle.push(("pipe-backend-eof-loses-bytes".into(), format!("{} byte(s) read from the backend were dropped at close ({})", read_back.len() - sc.written.len(), r.closed_by)));
@@ -439,28 +661,85 @@ impl Area for P {
                 }
                 ["brd", hx, fin] => {
                     let bytes = unhex(hx);
-                    if !r.back_fin {
-                        if !bytes.is_empty() {
-                            r.peer.write_all(&bytes).expect("peer write");
-                            r.back_sent.extend_from_slice(&bytes);
-                            r.pending_back += bytes.len();
-                        }
-                        if *fin == "1" {
-                            let _ = r.peer.shutdown(Shutdown::Write);
-                            r.back_fin = true;
-                        }
-                    }
+                    r.peer_send(&bytes, *fin == "1");
                     // wait until the kernel holds what the peer delivered
-                    let t0 = Instant::now();
-                    while (avail(r.back_fd) < r.pending_back || (r.back_fin && !rdhup(r.back_fd))) && t0.elapsed() < Duration::from_millis(500) {
-                        std::thread::sleep(Duration::from_micros(50));
-                    }
-                    if t0.elapsed() >= Duration::from_millis(500) {
+                    if !r.wait_back() {
                         run.tags.push("brd-wait-timeout".into());
                     }
                     let out = r.pipe.backend_readable(&mut metrics);
                     r.pending_back = avail(r.back_fd);
                     run.tags.push(format!("brd:{}", res_str(out)));
+                    out
+                }
+                ["bfill"] => {
+                    r.fill_backend();
+                    run.tags.push("bfill".into());
+                    run.out.push("ok".into());
+                    continue;
+                }
+                ["bdrain"] => {
+                    r.collect_peer();
+                    run.out.push("ok".into());
+                    continue;
+                }
+                ["bclose"] => {
+                    r.collect_peer();
+                    r.peer = None;
+                    r.back_fin = true;
+                    run.tags.push("bclose".into());
+                    run.out.push("ok".into());
+                    continue;
+                }
+                ["sev", evs @ ..] => {
+                    // a batch of outside events, then one wake-up of the real `Pipe::ready`
+                    let before = r.script.borrow().written.len();
+                    for e in evs {
+                        let (k, v) = e.split_once(':').unwrap_or((e, ""));
+                        match k {
+                            "cs" => {
+                                let bytes = unhex(v);
+                                let mut sc = r.script.borrow_mut();
+                                sc.queue.extend(bytes.iter().copied());
+                                sc.sent.extend_from_slice(&bytes);
+                                drop(sc);
+                                r.pipe.frontend_readiness.event.insert(Ready::READABLE);
+                            }
+                            "cf" => {
+                                r.script.borrow_mut().fin = true;
+                                r.pipe.frontend_readiness.event.insert(Ready::READABLE | Ready::HUP);
+                            }
+                            "bs" => {
+                                r.peer_send(&unhex(v), false);
+                                r.pipe.backend_readiness.event.insert(Ready::READABLE);
+                            }
+                            "bf" => {
+                                r.peer_send(&[], true);
+                                r.pipe.backend_readiness.event.insert(Ready::READABLE | Ready::HUP);
+                            }
+                            "cr" => {
+                                r.script.borrow_mut().room += v.parse::<usize>().unwrap_or(0);
+                                r.pipe.frontend_readiness.event.insert(Ready::WRITABLE);
+                            }
+                            "bo" => {
+                                r.collect_peer();
+                                r.pipe.backend_readiness.event.insert(Ready::WRITABLE);
+                            }
+                            "bb" => r.fill_backend(),
+                            "fe" => r.pipe.frontend_readiness.event.insert(Ready::ERROR),
+                            "be" => r.pipe.backend_readiness.event.insert(Ready::ERROR),
+                            _ => {}
+                        }
+                    }
+                    if !r.wait_back() {
+                        run.tags.push("brd-wait-timeout".into());
+                    }
+                    let session: Rc<RefCell<dyn ProxySession>> = Rc::new(RefCell::new(NoSession));
+                    let proxy: Rc<RefCell<dyn L7Proxy>> = Rc::new(RefCell::new(NoProxy));
+                    let out = SessionState::ready(&mut r.pipe, session, proxy, &mut metrics);
+                    r.pending_back = avail(r.back_fd);
+                    let s = r.script.borrow();
+                    extra = format!(" +{}", hex(&s.written[before..]));
+                    run.tags.push(format!("sev:{}", res_str(out)));
                     out
                 }
                 ["bwr"] => {
